@@ -894,4 +894,396 @@ def cRemoveClientPc : Pc → Bool
 @[simp] theorem cRemoveClientPc_afterPres (t : Thread) : cRemoveClientPc (afterPres t) = false := by
   unfold afterPres; split <;> rfl
 
+def closeKindPc : Pc → Bool
+  | .cEnter | .cRemoveClient | .cDpf | .cWriter | .cTClose | .cLoop | .cOnDisc | .cExit | .uSnap | .uWait | .uTmoLog | .uRemove | .uPresRm | .uLeave | .uHubRm | .uOnUnsub | .done => true
+  | _ => false
+@[simp] theorem closeKindPc_sReserve : closeKindPc .sReserve = false := rfl
+@[simp] theorem closeKindPc_sOnSub : closeKindPc .sOnSub = false := rfl
+@[simp] theorem closeKindPc_sReadGen : closeKindPc .sReadGen = false := rfl
+@[simp] theorem closeKindPc_sCheck1 : closeKindPc .sCheck1 = false := rfl
+@[simp] theorem closeKindPc_sHubAdd : closeKindPc .sHubAdd = false := rfl
+@[simp] theorem closeKindPc_sCheck2 : closeKindPc .sCheck2 = false := rfl
+@[simp] theorem closeKindPc_sPresAdd : closeKindPc .sPresAdd = false := rfl
+@[simp] theorem closeKindPc_sReply : closeKindPc .sReply = false := rfl
+@[simp] theorem closeKindPc_sCommit : closeKindPc .sCommit = false := rfl
+@[simp] theorem closeKindPc_sRbHub : closeKindPc .sRbHub = false := rfl
+@[simp] theorem closeKindPc_sRbPres : closeKindPc .sRbPres = false := rfl
+@[simp] theorem closeKindPc_sRbClose : closeKindPc .sRbClose = false := rfl
+@[simp] theorem closeKindPc_sCloseGate : closeKindPc .sCloseGate = false := rfl
+@[simp] theorem closeKindPc_sDpf : closeKindPc .sDpf = false := rfl
+@[simp] theorem closeKindPc_sPush : closeKindPc .sPush = false := rfl
+@[simp] theorem closeKindPc_sJoin : closeKindPc .sJoin = false := rfl
+@[simp] theorem closeKindPc_sDeferPres : closeKindPc .sDeferPres = false := rfl
+@[simp] theorem closeKindPc_sErrDel : closeKindPc .sErrDel = false := rfl
+@[simp] theorem closeKindPc_sErrHub : closeKindPc .sErrHub = false := rfl
+@[simp] theorem closeKindPc_sErrClose : closeKindPc .sErrClose = false := rfl
+@[simp] theorem closeKindPc_sErrOut : closeKindPc .sErrOut = false := rfl
+@[simp] theorem closeKindPc_uStatus : closeKindPc .uStatus = false := rfl
+@[simp] theorem closeKindPc_uSnap : closeKindPc .uSnap = true := rfl
+@[simp] theorem closeKindPc_uWait : closeKindPc .uWait = true := rfl
+@[simp] theorem closeKindPc_uTmoLog : closeKindPc .uTmoLog = true := rfl
+@[simp] theorem closeKindPc_uRemove : closeKindPc .uRemove = true := rfl
+@[simp] theorem closeKindPc_uPresRm : closeKindPc .uPresRm = true := rfl
+@[simp] theorem closeKindPc_uLeave : closeKindPc .uLeave = true := rfl
+@[simp] theorem closeKindPc_uHubRm : closeKindPc .uHubRm = true := rfl
+@[simp] theorem closeKindPc_uOnUnsub : closeKindPc .uOnUnsub = true := rfl
+@[simp] theorem closeKindPc_uOut : closeKindPc .uOut = false := rfl
+@[simp] theorem closeKindPc_cEnter : closeKindPc .cEnter = true := rfl
+@[simp] theorem closeKindPc_cRemoveClient : closeKindPc .cRemoveClient = true := rfl
+@[simp] theorem closeKindPc_cDpf : closeKindPc .cDpf = true := rfl
+@[simp] theorem closeKindPc_cWriter : closeKindPc .cWriter = true := rfl
+@[simp] theorem closeKindPc_cTClose : closeKindPc .cTClose = true := rfl
+@[simp] theorem closeKindPc_cLoop : closeKindPc .cLoop = true := rfl
+@[simp] theorem closeKindPc_cOnDisc : closeKindPc .cOnDisc = true := rfl
+@[simp] theorem closeKindPc_cExit : closeKindPc .cExit = true := rfl
+@[simp] theorem closeKindPc_done : closeKindPc .done = true := rfl
+@[simp] theorem closeKindPc_ite (c : Prop) [Decidable c] (a b : Pc) :
+    closeKindPc (if c then a else b) = if c then closeKindPc a else closeKindPc b := apply_ite closeKindPc c a b
+@[simp] theorem closeKindPc_afterRemove (c : Entry) : closeKindPc (afterRemove c) = true := by
+  unfold afterRemove; split <;> (try split) <;> rfl
+@[simp] theorem closeKindPc_afterCmdFail (t : Thread) : closeKindPc (afterCmdFail t) = false := by
+  unfold afterCmdFail; split <;> rfl
+@[simp] theorem closeKindPc_afterChecks (t : Thread) : closeKindPc (afterChecks t) = false := by
+  unfold afterChecks; split <;> (try split) <;> rfl
+@[simp] theorem closeKindPc_afterPres (t : Thread) : closeKindPc (afterPres t) = false := by
+  unfold afterPres; split <;> rfl
+@[simp] theorem closeKindPc_unsubRetPc_close : closeKindPc (unsubRetPc .close) = true := rfl
+
+def inClosePc : Pc → Bool
+  | .cRemoveClient | .cDpf | .cWriter | .cTClose | .cLoop | .cOnDisc | .cExit | .uSnap | .uWait | .uTmoLog | .uRemove | .uPresRm | .uLeave | .uHubRm | .uOnUnsub => true
+  | _ => false
+@[simp] theorem inClosePc_sReserve : inClosePc .sReserve = false := rfl
+@[simp] theorem inClosePc_sOnSub : inClosePc .sOnSub = false := rfl
+@[simp] theorem inClosePc_sReadGen : inClosePc .sReadGen = false := rfl
+@[simp] theorem inClosePc_sCheck1 : inClosePc .sCheck1 = false := rfl
+@[simp] theorem inClosePc_sHubAdd : inClosePc .sHubAdd = false := rfl
+@[simp] theorem inClosePc_sCheck2 : inClosePc .sCheck2 = false := rfl
+@[simp] theorem inClosePc_sPresAdd : inClosePc .sPresAdd = false := rfl
+@[simp] theorem inClosePc_sReply : inClosePc .sReply = false := rfl
+@[simp] theorem inClosePc_sCommit : inClosePc .sCommit = false := rfl
+@[simp] theorem inClosePc_sRbHub : inClosePc .sRbHub = false := rfl
+@[simp] theorem inClosePc_sRbPres : inClosePc .sRbPres = false := rfl
+@[simp] theorem inClosePc_sRbClose : inClosePc .sRbClose = false := rfl
+@[simp] theorem inClosePc_sCloseGate : inClosePc .sCloseGate = false := rfl
+@[simp] theorem inClosePc_sDpf : inClosePc .sDpf = false := rfl
+@[simp] theorem inClosePc_sPush : inClosePc .sPush = false := rfl
+@[simp] theorem inClosePc_sJoin : inClosePc .sJoin = false := rfl
+@[simp] theorem inClosePc_sDeferPres : inClosePc .sDeferPres = false := rfl
+@[simp] theorem inClosePc_sErrDel : inClosePc .sErrDel = false := rfl
+@[simp] theorem inClosePc_sErrHub : inClosePc .sErrHub = false := rfl
+@[simp] theorem inClosePc_sErrClose : inClosePc .sErrClose = false := rfl
+@[simp] theorem inClosePc_sErrOut : inClosePc .sErrOut = false := rfl
+@[simp] theorem inClosePc_uStatus : inClosePc .uStatus = false := rfl
+@[simp] theorem inClosePc_uSnap : inClosePc .uSnap = true := rfl
+@[simp] theorem inClosePc_uWait : inClosePc .uWait = true := rfl
+@[simp] theorem inClosePc_uTmoLog : inClosePc .uTmoLog = true := rfl
+@[simp] theorem inClosePc_uRemove : inClosePc .uRemove = true := rfl
+@[simp] theorem inClosePc_uPresRm : inClosePc .uPresRm = true := rfl
+@[simp] theorem inClosePc_uLeave : inClosePc .uLeave = true := rfl
+@[simp] theorem inClosePc_uHubRm : inClosePc .uHubRm = true := rfl
+@[simp] theorem inClosePc_uOnUnsub : inClosePc .uOnUnsub = true := rfl
+@[simp] theorem inClosePc_uOut : inClosePc .uOut = false := rfl
+@[simp] theorem inClosePc_cEnter : inClosePc .cEnter = false := rfl
+@[simp] theorem inClosePc_cRemoveClient : inClosePc .cRemoveClient = true := rfl
+@[simp] theorem inClosePc_cDpf : inClosePc .cDpf = true := rfl
+@[simp] theorem inClosePc_cWriter : inClosePc .cWriter = true := rfl
+@[simp] theorem inClosePc_cTClose : inClosePc .cTClose = true := rfl
+@[simp] theorem inClosePc_cLoop : inClosePc .cLoop = true := rfl
+@[simp] theorem inClosePc_cOnDisc : inClosePc .cOnDisc = true := rfl
+@[simp] theorem inClosePc_cExit : inClosePc .cExit = true := rfl
+@[simp] theorem inClosePc_done : inClosePc .done = false := rfl
+@[simp] theorem inClosePc_ite (c : Prop) [Decidable c] (a b : Pc) :
+    inClosePc (if c then a else b) = if c then inClosePc a else inClosePc b := apply_ite inClosePc c a b
+@[simp] theorem inClosePc_afterRemove (c : Entry) : inClosePc (afterRemove c) = true := by
+  unfold afterRemove; split <;> (try split) <;> rfl
+@[simp] theorem inClosePc_afterCmdFail (t : Thread) : inClosePc (afterCmdFail t) = false := by
+  unfold afterCmdFail; split <;> rfl
+@[simp] theorem inClosePc_afterChecks (t : Thread) : inClosePc (afterChecks t) = false := by
+  unfold afterChecks; split <;> (try split) <;> rfl
+@[simp] theorem inClosePc_afterPres (t : Thread) : inClosePc (afterPres t) = false := by
+  unfold afterPres; split <;> rfl
+@[simp] theorem inClosePc_unsubRetPc_close : inClosePc (unsubRetPc .close) = true := rfl
+
+def snapPc : Pc → Bool
+  | .uSnap => true
+  | _ => false
+@[simp] theorem snapPc_sReserve : snapPc .sReserve = false := rfl
+@[simp] theorem snapPc_sOnSub : snapPc .sOnSub = false := rfl
+@[simp] theorem snapPc_sReadGen : snapPc .sReadGen = false := rfl
+@[simp] theorem snapPc_sCheck1 : snapPc .sCheck1 = false := rfl
+@[simp] theorem snapPc_sHubAdd : snapPc .sHubAdd = false := rfl
+@[simp] theorem snapPc_sCheck2 : snapPc .sCheck2 = false := rfl
+@[simp] theorem snapPc_sPresAdd : snapPc .sPresAdd = false := rfl
+@[simp] theorem snapPc_sReply : snapPc .sReply = false := rfl
+@[simp] theorem snapPc_sCommit : snapPc .sCommit = false := rfl
+@[simp] theorem snapPc_sRbHub : snapPc .sRbHub = false := rfl
+@[simp] theorem snapPc_sRbPres : snapPc .sRbPres = false := rfl
+@[simp] theorem snapPc_sRbClose : snapPc .sRbClose = false := rfl
+@[simp] theorem snapPc_sCloseGate : snapPc .sCloseGate = false := rfl
+@[simp] theorem snapPc_sDpf : snapPc .sDpf = false := rfl
+@[simp] theorem snapPc_sPush : snapPc .sPush = false := rfl
+@[simp] theorem snapPc_sJoin : snapPc .sJoin = false := rfl
+@[simp] theorem snapPc_sDeferPres : snapPc .sDeferPres = false := rfl
+@[simp] theorem snapPc_sErrDel : snapPc .sErrDel = false := rfl
+@[simp] theorem snapPc_sErrHub : snapPc .sErrHub = false := rfl
+@[simp] theorem snapPc_sErrClose : snapPc .sErrClose = false := rfl
+@[simp] theorem snapPc_sErrOut : snapPc .sErrOut = false := rfl
+@[simp] theorem snapPc_uStatus : snapPc .uStatus = false := rfl
+@[simp] theorem snapPc_uSnap : snapPc .uSnap = true := rfl
+@[simp] theorem snapPc_uWait : snapPc .uWait = false := rfl
+@[simp] theorem snapPc_uTmoLog : snapPc .uTmoLog = false := rfl
+@[simp] theorem snapPc_uRemove : snapPc .uRemove = false := rfl
+@[simp] theorem snapPc_uPresRm : snapPc .uPresRm = false := rfl
+@[simp] theorem snapPc_uLeave : snapPc .uLeave = false := rfl
+@[simp] theorem snapPc_uHubRm : snapPc .uHubRm = false := rfl
+@[simp] theorem snapPc_uOnUnsub : snapPc .uOnUnsub = false := rfl
+@[simp] theorem snapPc_uOut : snapPc .uOut = false := rfl
+@[simp] theorem snapPc_cEnter : snapPc .cEnter = false := rfl
+@[simp] theorem snapPc_cRemoveClient : snapPc .cRemoveClient = false := rfl
+@[simp] theorem snapPc_cDpf : snapPc .cDpf = false := rfl
+@[simp] theorem snapPc_cWriter : snapPc .cWriter = false := rfl
+@[simp] theorem snapPc_cTClose : snapPc .cTClose = false := rfl
+@[simp] theorem snapPc_cLoop : snapPc .cLoop = false := rfl
+@[simp] theorem snapPc_cOnDisc : snapPc .cOnDisc = false := rfl
+@[simp] theorem snapPc_cExit : snapPc .cExit = false := rfl
+@[simp] theorem snapPc_done : snapPc .done = false := rfl
+@[simp] theorem snapPc_ite (c : Prop) [Decidable c] (a b : Pc) :
+    snapPc (if c then a else b) = if c then snapPc a else snapPc b := apply_ite snapPc c a b
+@[simp] theorem snapPc_unsubRetPc (k : Kind) : snapPc (unsubRetPc k) = false := by
+  cases k <;> rfl
+@[simp] theorem snapPc_afterRemove (c : Entry) : snapPc (afterRemove c) = false := by
+  unfold afterRemove; split <;> (try split) <;> rfl
+@[simp] theorem snapPc_afterCmdFail (t : Thread) : snapPc (afterCmdFail t) = false := by
+  unfold afterCmdFail; split <;> rfl
+@[simp] theorem snapPc_afterChecks (t : Thread) : snapPc (afterChecks t) = false := by
+  unfold afterChecks; split <;> (try split) <;> rfl
+@[simp] theorem snapPc_afterPres (t : Thread) : snapPc (afterPres t) = false := by
+  unfold afterPres; split <;> rfl
+@[simp] theorem snapPc_unsubRetPc_close : snapPc (unsubRetPc .close) = false := rfl
+
+def unsubWorkPc : Pc → Bool
+  | .uSnap | .uWait | .uTmoLog | .uRemove | .uPresRm | .uLeave | .uHubRm | .uOnUnsub => true
+  | _ => false
+@[simp] theorem unsubWorkPc_sReserve : unsubWorkPc .sReserve = false := rfl
+@[simp] theorem unsubWorkPc_sOnSub : unsubWorkPc .sOnSub = false := rfl
+@[simp] theorem unsubWorkPc_sReadGen : unsubWorkPc .sReadGen = false := rfl
+@[simp] theorem unsubWorkPc_sCheck1 : unsubWorkPc .sCheck1 = false := rfl
+@[simp] theorem unsubWorkPc_sHubAdd : unsubWorkPc .sHubAdd = false := rfl
+@[simp] theorem unsubWorkPc_sCheck2 : unsubWorkPc .sCheck2 = false := rfl
+@[simp] theorem unsubWorkPc_sPresAdd : unsubWorkPc .sPresAdd = false := rfl
+@[simp] theorem unsubWorkPc_sReply : unsubWorkPc .sReply = false := rfl
+@[simp] theorem unsubWorkPc_sCommit : unsubWorkPc .sCommit = false := rfl
+@[simp] theorem unsubWorkPc_sRbHub : unsubWorkPc .sRbHub = false := rfl
+@[simp] theorem unsubWorkPc_sRbPres : unsubWorkPc .sRbPres = false := rfl
+@[simp] theorem unsubWorkPc_sRbClose : unsubWorkPc .sRbClose = false := rfl
+@[simp] theorem unsubWorkPc_sCloseGate : unsubWorkPc .sCloseGate = false := rfl
+@[simp] theorem unsubWorkPc_sDpf : unsubWorkPc .sDpf = false := rfl
+@[simp] theorem unsubWorkPc_sPush : unsubWorkPc .sPush = false := rfl
+@[simp] theorem unsubWorkPc_sJoin : unsubWorkPc .sJoin = false := rfl
+@[simp] theorem unsubWorkPc_sDeferPres : unsubWorkPc .sDeferPres = false := rfl
+@[simp] theorem unsubWorkPc_sErrDel : unsubWorkPc .sErrDel = false := rfl
+@[simp] theorem unsubWorkPc_sErrHub : unsubWorkPc .sErrHub = false := rfl
+@[simp] theorem unsubWorkPc_sErrClose : unsubWorkPc .sErrClose = false := rfl
+@[simp] theorem unsubWorkPc_sErrOut : unsubWorkPc .sErrOut = false := rfl
+@[simp] theorem unsubWorkPc_uStatus : unsubWorkPc .uStatus = false := rfl
+@[simp] theorem unsubWorkPc_uSnap : unsubWorkPc .uSnap = true := rfl
+@[simp] theorem unsubWorkPc_uWait : unsubWorkPc .uWait = true := rfl
+@[simp] theorem unsubWorkPc_uTmoLog : unsubWorkPc .uTmoLog = true := rfl
+@[simp] theorem unsubWorkPc_uRemove : unsubWorkPc .uRemove = true := rfl
+@[simp] theorem unsubWorkPc_uPresRm : unsubWorkPc .uPresRm = true := rfl
+@[simp] theorem unsubWorkPc_uLeave : unsubWorkPc .uLeave = true := rfl
+@[simp] theorem unsubWorkPc_uHubRm : unsubWorkPc .uHubRm = true := rfl
+@[simp] theorem unsubWorkPc_uOnUnsub : unsubWorkPc .uOnUnsub = true := rfl
+@[simp] theorem unsubWorkPc_uOut : unsubWorkPc .uOut = false := rfl
+@[simp] theorem unsubWorkPc_cEnter : unsubWorkPc .cEnter = false := rfl
+@[simp] theorem unsubWorkPc_cRemoveClient : unsubWorkPc .cRemoveClient = false := rfl
+@[simp] theorem unsubWorkPc_cDpf : unsubWorkPc .cDpf = false := rfl
+@[simp] theorem unsubWorkPc_cWriter : unsubWorkPc .cWriter = false := rfl
+@[simp] theorem unsubWorkPc_cTClose : unsubWorkPc .cTClose = false := rfl
+@[simp] theorem unsubWorkPc_cLoop : unsubWorkPc .cLoop = false := rfl
+@[simp] theorem unsubWorkPc_cOnDisc : unsubWorkPc .cOnDisc = false := rfl
+@[simp] theorem unsubWorkPc_cExit : unsubWorkPc .cExit = false := rfl
+@[simp] theorem unsubWorkPc_done : unsubWorkPc .done = false := rfl
+@[simp] theorem unsubWorkPc_ite (c : Prop) [Decidable c] (a b : Pc) :
+    unsubWorkPc (if c then a else b) = if c then unsubWorkPc a else unsubWorkPc b := apply_ite unsubWorkPc c a b
+@[simp] theorem unsubWorkPc_unsubRetPc (k : Kind) : unsubWorkPc (unsubRetPc k) = false := by
+  cases k <;> rfl
+@[simp] theorem unsubWorkPc_afterRemove (c : Entry) : unsubWorkPc (afterRemove c) = true := by
+  unfold afterRemove; split <;> (try split) <;> rfl
+@[simp] theorem unsubWorkPc_afterCmdFail (t : Thread) : unsubWorkPc (afterCmdFail t) = false := by
+  unfold afterCmdFail; split <;> rfl
+@[simp] theorem unsubWorkPc_afterChecks (t : Thread) : unsubWorkPc (afterChecks t) = false := by
+  unfold afterChecks; split <;> (try split) <;> rfl
+@[simp] theorem unsubWorkPc_afterPres (t : Thread) : unsubWorkPc (afterPres t) = false := by
+  unfold afterPres; split <;> rfl
+@[simp] theorem unsubWorkPc_unsubRetPc_close : unsubWorkPc (unsubRetPc .close) = false := rfl
+
+def donePendPc : Pc → Bool
+  | .cOnDisc | .cExit => true
+  | _ => false
+@[simp] theorem donePendPc_sReserve : donePendPc .sReserve = false := rfl
+@[simp] theorem donePendPc_sOnSub : donePendPc .sOnSub = false := rfl
+@[simp] theorem donePendPc_sReadGen : donePendPc .sReadGen = false := rfl
+@[simp] theorem donePendPc_sCheck1 : donePendPc .sCheck1 = false := rfl
+@[simp] theorem donePendPc_sHubAdd : donePendPc .sHubAdd = false := rfl
+@[simp] theorem donePendPc_sCheck2 : donePendPc .sCheck2 = false := rfl
+@[simp] theorem donePendPc_sPresAdd : donePendPc .sPresAdd = false := rfl
+@[simp] theorem donePendPc_sReply : donePendPc .sReply = false := rfl
+@[simp] theorem donePendPc_sCommit : donePendPc .sCommit = false := rfl
+@[simp] theorem donePendPc_sRbHub : donePendPc .sRbHub = false := rfl
+@[simp] theorem donePendPc_sRbPres : donePendPc .sRbPres = false := rfl
+@[simp] theorem donePendPc_sRbClose : donePendPc .sRbClose = false := rfl
+@[simp] theorem donePendPc_sCloseGate : donePendPc .sCloseGate = false := rfl
+@[simp] theorem donePendPc_sDpf : donePendPc .sDpf = false := rfl
+@[simp] theorem donePendPc_sPush : donePendPc .sPush = false := rfl
+@[simp] theorem donePendPc_sJoin : donePendPc .sJoin = false := rfl
+@[simp] theorem donePendPc_sDeferPres : donePendPc .sDeferPres = false := rfl
+@[simp] theorem donePendPc_sErrDel : donePendPc .sErrDel = false := rfl
+@[simp] theorem donePendPc_sErrHub : donePendPc .sErrHub = false := rfl
+@[simp] theorem donePendPc_sErrClose : donePendPc .sErrClose = false := rfl
+@[simp] theorem donePendPc_sErrOut : donePendPc .sErrOut = false := rfl
+@[simp] theorem donePendPc_uStatus : donePendPc .uStatus = false := rfl
+@[simp] theorem donePendPc_uSnap : donePendPc .uSnap = false := rfl
+@[simp] theorem donePendPc_uWait : donePendPc .uWait = false := rfl
+@[simp] theorem donePendPc_uTmoLog : donePendPc .uTmoLog = false := rfl
+@[simp] theorem donePendPc_uRemove : donePendPc .uRemove = false := rfl
+@[simp] theorem donePendPc_uPresRm : donePendPc .uPresRm = false := rfl
+@[simp] theorem donePendPc_uLeave : donePendPc .uLeave = false := rfl
+@[simp] theorem donePendPc_uHubRm : donePendPc .uHubRm = false := rfl
+@[simp] theorem donePendPc_uOnUnsub : donePendPc .uOnUnsub = false := rfl
+@[simp] theorem donePendPc_uOut : donePendPc .uOut = false := rfl
+@[simp] theorem donePendPc_cEnter : donePendPc .cEnter = false := rfl
+@[simp] theorem donePendPc_cRemoveClient : donePendPc .cRemoveClient = false := rfl
+@[simp] theorem donePendPc_cDpf : donePendPc .cDpf = false := rfl
+@[simp] theorem donePendPc_cWriter : donePendPc .cWriter = false := rfl
+@[simp] theorem donePendPc_cTClose : donePendPc .cTClose = false := rfl
+@[simp] theorem donePendPc_cLoop : donePendPc .cLoop = false := rfl
+@[simp] theorem donePendPc_cOnDisc : donePendPc .cOnDisc = true := rfl
+@[simp] theorem donePendPc_cExit : donePendPc .cExit = true := rfl
+@[simp] theorem donePendPc_done : donePendPc .done = false := rfl
+@[simp] theorem donePendPc_ite (c : Prop) [Decidable c] (a b : Pc) :
+    donePendPc (if c then a else b) = if c then donePendPc a else donePendPc b := apply_ite donePendPc c a b
+@[simp] theorem donePendPc_unsubRetPc (k : Kind) : donePendPc (unsubRetPc k) = false := by
+  cases k <;> rfl
+@[simp] theorem donePendPc_afterRemove (c : Entry) : donePendPc (afterRemove c) = false := by
+  unfold afterRemove; split <;> (try split) <;> rfl
+@[simp] theorem donePendPc_afterCmdFail (t : Thread) : donePendPc (afterCmdFail t) = false := by
+  unfold afterCmdFail; split <;> rfl
+@[simp] theorem donePendPc_afterChecks (t : Thread) : donePendPc (afterChecks t) = false := by
+  unfold afterChecks; split <;> (try split) <;> rfl
+@[simp] theorem donePendPc_afterPres (t : Thread) : donePendPc (afterPres t) = false := by
+  unfold afterPres; split <;> rfl
+@[simp] theorem donePendPc_unsubRetPc_close : donePendPc (unsubRetPc .close) = false := rfl
+
+def cPc : Pc → Bool
+  | .cEnter | .cRemoveClient | .cDpf | .cWriter | .cTClose | .cLoop | .cOnDisc | .cExit => true
+  | _ => false
+@[simp] theorem cPc_sReserve : cPc .sReserve = false := rfl
+@[simp] theorem cPc_sOnSub : cPc .sOnSub = false := rfl
+@[simp] theorem cPc_sReadGen : cPc .sReadGen = false := rfl
+@[simp] theorem cPc_sCheck1 : cPc .sCheck1 = false := rfl
+@[simp] theorem cPc_sHubAdd : cPc .sHubAdd = false := rfl
+@[simp] theorem cPc_sCheck2 : cPc .sCheck2 = false := rfl
+@[simp] theorem cPc_sPresAdd : cPc .sPresAdd = false := rfl
+@[simp] theorem cPc_sReply : cPc .sReply = false := rfl
+@[simp] theorem cPc_sCommit : cPc .sCommit = false := rfl
+@[simp] theorem cPc_sRbHub : cPc .sRbHub = false := rfl
+@[simp] theorem cPc_sRbPres : cPc .sRbPres = false := rfl
+@[simp] theorem cPc_sRbClose : cPc .sRbClose = false := rfl
+@[simp] theorem cPc_sCloseGate : cPc .sCloseGate = false := rfl
+@[simp] theorem cPc_sDpf : cPc .sDpf = false := rfl
+@[simp] theorem cPc_sPush : cPc .sPush = false := rfl
+@[simp] theorem cPc_sJoin : cPc .sJoin = false := rfl
+@[simp] theorem cPc_sDeferPres : cPc .sDeferPres = false := rfl
+@[simp] theorem cPc_sErrDel : cPc .sErrDel = false := rfl
+@[simp] theorem cPc_sErrHub : cPc .sErrHub = false := rfl
+@[simp] theorem cPc_sErrClose : cPc .sErrClose = false := rfl
+@[simp] theorem cPc_sErrOut : cPc .sErrOut = false := rfl
+@[simp] theorem cPc_uStatus : cPc .uStatus = false := rfl
+@[simp] theorem cPc_uSnap : cPc .uSnap = false := rfl
+@[simp] theorem cPc_uWait : cPc .uWait = false := rfl
+@[simp] theorem cPc_uTmoLog : cPc .uTmoLog = false := rfl
+@[simp] theorem cPc_uRemove : cPc .uRemove = false := rfl
+@[simp] theorem cPc_uPresRm : cPc .uPresRm = false := rfl
+@[simp] theorem cPc_uLeave : cPc .uLeave = false := rfl
+@[simp] theorem cPc_uHubRm : cPc .uHubRm = false := rfl
+@[simp] theorem cPc_uOnUnsub : cPc .uOnUnsub = false := rfl
+@[simp] theorem cPc_uOut : cPc .uOut = false := rfl
+@[simp] theorem cPc_cEnter : cPc .cEnter = true := rfl
+@[simp] theorem cPc_cRemoveClient : cPc .cRemoveClient = true := rfl
+@[simp] theorem cPc_cDpf : cPc .cDpf = true := rfl
+@[simp] theorem cPc_cWriter : cPc .cWriter = true := rfl
+@[simp] theorem cPc_cTClose : cPc .cTClose = true := rfl
+@[simp] theorem cPc_cLoop : cPc .cLoop = true := rfl
+@[simp] theorem cPc_cOnDisc : cPc .cOnDisc = true := rfl
+@[simp] theorem cPc_cExit : cPc .cExit = true := rfl
+@[simp] theorem cPc_done : cPc .done = false := rfl
+@[simp] theorem cPc_ite (c : Prop) [Decidable c] (a b : Pc) :
+    cPc (if c then a else b) = if c then cPc a else cPc b := apply_ite cPc c a b
+@[simp] theorem cPc_afterRemove (c : Entry) : cPc (afterRemove c) = false := by
+  unfold afterRemove; split <;> (try split) <;> rfl
+@[simp] theorem cPc_afterCmdFail (t : Thread) : cPc (afterCmdFail t) = false := by
+  unfold afterCmdFail; split <;> rfl
+@[simp] theorem cPc_afterChecks (t : Thread) : cPc (afterChecks t) = false := by
+  unfold afterChecks; split <;> (try split) <;> rfl
+@[simp] theorem cPc_afterPres (t : Thread) : cPc (afterPres t) = false := by
+  unfold afterPres; split <;> rfl
+@[simp] theorem cPc_unsubRetPc (k : Kind) : cPc (unsubRetPc k) = (k == .close) := by cases k <;> rfl
+
+def presAddPc : Pc → Bool
+  | .sPresAdd => true
+  | _ => false
+@[simp] theorem presAddPc_sReserve : presAddPc .sReserve = false := rfl
+@[simp] theorem presAddPc_sOnSub : presAddPc .sOnSub = false := rfl
+@[simp] theorem presAddPc_sReadGen : presAddPc .sReadGen = false := rfl
+@[simp] theorem presAddPc_sCheck1 : presAddPc .sCheck1 = false := rfl
+@[simp] theorem presAddPc_sHubAdd : presAddPc .sHubAdd = false := rfl
+@[simp] theorem presAddPc_sCheck2 : presAddPc .sCheck2 = false := rfl
+@[simp] theorem presAddPc_sPresAdd : presAddPc .sPresAdd = true := rfl
+@[simp] theorem presAddPc_sReply : presAddPc .sReply = false := rfl
+@[simp] theorem presAddPc_sCommit : presAddPc .sCommit = false := rfl
+@[simp] theorem presAddPc_sRbHub : presAddPc .sRbHub = false := rfl
+@[simp] theorem presAddPc_sRbPres : presAddPc .sRbPres = false := rfl
+@[simp] theorem presAddPc_sRbClose : presAddPc .sRbClose = false := rfl
+@[simp] theorem presAddPc_sCloseGate : presAddPc .sCloseGate = false := rfl
+@[simp] theorem presAddPc_sDpf : presAddPc .sDpf = false := rfl
+@[simp] theorem presAddPc_sPush : presAddPc .sPush = false := rfl
+@[simp] theorem presAddPc_sJoin : presAddPc .sJoin = false := rfl
+@[simp] theorem presAddPc_sDeferPres : presAddPc .sDeferPres = false := rfl
+@[simp] theorem presAddPc_sErrDel : presAddPc .sErrDel = false := rfl
+@[simp] theorem presAddPc_sErrHub : presAddPc .sErrHub = false := rfl
+@[simp] theorem presAddPc_sErrClose : presAddPc .sErrClose = false := rfl
+@[simp] theorem presAddPc_sErrOut : presAddPc .sErrOut = false := rfl
+@[simp] theorem presAddPc_uStatus : presAddPc .uStatus = false := rfl
+@[simp] theorem presAddPc_uSnap : presAddPc .uSnap = false := rfl
+@[simp] theorem presAddPc_uWait : presAddPc .uWait = false := rfl
+@[simp] theorem presAddPc_uTmoLog : presAddPc .uTmoLog = false := rfl
+@[simp] theorem presAddPc_uRemove : presAddPc .uRemove = false := rfl
+@[simp] theorem presAddPc_uPresRm : presAddPc .uPresRm = false := rfl
+@[simp] theorem presAddPc_uLeave : presAddPc .uLeave = false := rfl
+@[simp] theorem presAddPc_uHubRm : presAddPc .uHubRm = false := rfl
+@[simp] theorem presAddPc_uOnUnsub : presAddPc .uOnUnsub = false := rfl
+@[simp] theorem presAddPc_uOut : presAddPc .uOut = false := rfl
+@[simp] theorem presAddPc_cEnter : presAddPc .cEnter = false := rfl
+@[simp] theorem presAddPc_cRemoveClient : presAddPc .cRemoveClient = false := rfl
+@[simp] theorem presAddPc_cDpf : presAddPc .cDpf = false := rfl
+@[simp] theorem presAddPc_cWriter : presAddPc .cWriter = false := rfl
+@[simp] theorem presAddPc_cTClose : presAddPc .cTClose = false := rfl
+@[simp] theorem presAddPc_cLoop : presAddPc .cLoop = false := rfl
+@[simp] theorem presAddPc_cOnDisc : presAddPc .cOnDisc = false := rfl
+@[simp] theorem presAddPc_cExit : presAddPc .cExit = false := rfl
+@[simp] theorem presAddPc_done : presAddPc .done = false := rfl
+@[simp] theorem presAddPc_ite (c : Prop) [Decidable c] (a b : Pc) :
+    presAddPc (if c then a else b) = if c then presAddPc a else presAddPc b := apply_ite presAddPc c a b
+@[simp] theorem presAddPc_unsubRetPc (k : Kind) : presAddPc (unsubRetPc k) = false := by
+  cases k <;> rfl
+@[simp] theorem presAddPc_afterRemove (c : Entry) : presAddPc (afterRemove c) = false := by
+  unfold afterRemove; split <;> (try split) <;> rfl
+@[simp] theorem presAddPc_afterCmdFail (t : Thread) : presAddPc (afterCmdFail t) = false := by
+  unfold afterCmdFail; split <;> rfl
+@[simp] theorem presAddPc_afterPres (t : Thread) : presAddPc (afterPres t) = false := by
+  unfold afterPres; split <;> rfl
+@[simp] theorem presAddPc_afterChecks (t : Thread) : presAddPc (afterChecks t) = t.opts.presence := by
+  unfold afterChecks; cases t.opts.presence <;> simp <;> split <;> rfl
+
 end CentrifugeVerif.SubProto
